@@ -35,7 +35,7 @@ func NewSpecDB() *SpecDB {
 	}
 }
 
-var directiveRe = regexp.MustCompile(`^(props|ghost|spec|lemma|func|site-requires|site|extern|arith|trusted|pure|requires|ensures|canary|modifies|loop|nullable|nopanic|let|effects|axiom)\b`)
+var directiveRe = regexp.MustCompile(`^(props|ghost|spec|lemma|func|site-requires|site|extern|floatconv|arith|trusted|pure|requires|ensures|canary|modifies|loop|nullable|nopanic|let|effects|axiom)\b`)
 
 type rawLine struct {
 	text string
@@ -275,6 +275,8 @@ func (db *SpecDB) LoadFile(path, pkgPath, prefix string) {
 				continue
 			}
 			switch kw {
+			case "floatconv":
+				cur.FloatAbs = rest == "abstract"
 			case "arith":
 				cur.Arith = rest
 			case "trusted":
